@@ -55,30 +55,38 @@ class Connection:
         return self._process_not_unique(previous)
     else:
       self._gfa = gfa
-      outermost = gfa._new_virtual_lines is None
-      if outermost:
-        gfa._new_virtual_lines = []
-      try:
-        self._initialize_references()
-      except:
-        # the line is refused: take back the references set up so far
-        # and the virtual lines created only for them
-        self._remove_field_backreferences()
-        self._remove_field_references()
-        self._remove_nonfield_backreferences()
-        self._remove_nonfield_references()
-        self._gfa = None
-        if outermost:
-          new_virtual_lines = gfa._new_virtual_lines
-          gfa._new_virtual_lines = None
-          for line in reversed(new_virtual_lines):
-            if line.is_connected() and not line.all_references:
-              line.disconnect()
-        raise
-      if outermost:
-        gfa._new_virtual_lines = None
+      self._initialize_references_or_take_back()
       self._gfa._register_line(self)
       return None
+
+  def _initialize_references_or_take_back(self):
+    """
+    Initialize the references of the line, which was assigned to a Gfa;
+    if this fails, the line is refused: the references set up so far
+    and the virtual lines created only for them are taken back, the line
+    is detached from the Gfa and the error is propagated.
+    """
+    gfa = self._gfa
+    outermost = gfa._new_virtual_lines is None
+    if outermost:
+      gfa._new_virtual_lines = []
+    try:
+      self._initialize_references()
+    except:
+      self._remove_field_backreferences()
+      self._remove_field_references()
+      self._remove_nonfield_backreferences()
+      self._remove_nonfield_references()
+      self._gfa = None
+      if outermost:
+        new_virtual_lines = gfa._new_virtual_lines
+        gfa._new_virtual_lines = None
+        for line in reversed(new_virtual_lines):
+          if line.is_connected() and not line.all_references:
+            line.disconnect()
+      raise
+    if outermost:
+      gfa._new_virtual_lines = None
 
   def _validate_no_reference_to_own_name(self):
     if self.__class__.STORAGE_KEY != "name":
